@@ -7,7 +7,7 @@ V = os.path.dirname(os.path.dirname(os.path.abspath(__file__)))
 
 
 def prop_of(name: str) -> str | None:
-    m = re.match(r"^(C\d\d)-", name) or re.match(r"^sub-c(\d\d)-", name)
+    m = re.match(r"^(C\d\d)-", name) or re.match(r"^sub2?-c(\d\d)-", name)
     if m:
         g = m.group(1)
         return g if g.startswith("C") else "C" + g
